@@ -25,7 +25,7 @@ func init() {
 var decoderName = regexp.MustCompile(`^(ReadFrom|readFrom|readFromMsgpack|UnmarshalBinary|FromBuffer|FromUnsafeBytes|FromBase64|FromDense|FrozenView|frozenView|FromDenseBitSet)$`)
 
 func ruleRESET1(p *Prog) *RuleResult {
-	res := newResult("RESET1", ruleDoc["RESET1"], 6)
+	res := newResult("RESET1", ruleDoc["RESET1"], 3)
 	fns := append([]*ssa.Function(nil), p.sourceFns()...)
 	sort.Slice(fns, func(i, j int) bool { return fname(fns[i]) < fname(fns[j]) })
 	for _, f := range fns {
@@ -119,6 +119,30 @@ func ruleRESET1(p *Prog) *RuleResult {
 					}
 					blocked[s.st.Block()] = true
 				}
+				// a helper called on the receiver that gives the field its length on each of its own paths
+				// (ra.setLengthForRead(n)) stands for the assignment
+				for _, hb := range f.Blocks {
+					for _, hi := range hb.Instrs {
+						c, ok := hi.(*ssa.Call)
+						if !ok {
+							continue
+						}
+						g := c.Call.StaticCallee()
+						if g == nil || g.Blocks == nil || len(g.Params) == 0 || len(c.Call.Args) == 0 || c.Call.Args[0] != ssa.Value(recv) || fa.X != ssa.Value(recv) {
+							continue
+						}
+						if !helperSizesField(g, fa.Field) {
+							continue
+						}
+						if hb == st.Block() {
+							if instrIndex(c) < instrIndex(st) {
+								okk = true
+							}
+							continue
+						}
+						blocked[hb] = true
+					}
+				}
 				if !okk {
 					// must-pass-through: no path from the entry reaches the element store around every such assignment
 					seen := map[*ssa.BasicBlock]bool{}
@@ -173,4 +197,41 @@ func lengthGiving(v ssa.Value, fa *ssa.FieldAddr) bool {
 		return true // nil
 	}
 	return false
+}
+
+// helperSizesField: every path from g's entry to a return passes a length-giving store to field fld of g's receiver
+func helperSizesField(g *ssa.Function, fld int) bool {
+	recv := g.Params[0]
+	blocked := map[*ssa.BasicBlock]bool{}
+	for _, b := range g.Blocks {
+		for _, ins := range b.Instrs {
+			if st, ok := ins.(*ssa.Store); ok {
+				if fa, ok := st.Addr.(*ssa.FieldAddr); ok && fa.X == ssa.Value(recv) && fa.Field == fld && lengthGiving(st.Val, fa) {
+					blocked[b] = true
+				}
+			}
+		}
+	}
+	if len(blocked) == 0 {
+		return false
+	}
+	seen := map[*ssa.BasicBlock]bool{g.Blocks[0]: true}
+	work := []*ssa.BasicBlock{g.Blocks[0]}
+	for len(work) > 0 {
+		b := work[len(work)-1]
+		work = work[:len(work)-1]
+		if blocked[b] {
+			continue
+		}
+		if _, ok := b.Instrs[len(b.Instrs)-1].(*ssa.Return); ok {
+			return false
+		}
+		for _, s := range b.Succs {
+			if !seen[s] {
+				seen[s] = true
+				work = append(work, s)
+			}
+		}
+	}
+	return true
 }
